@@ -792,7 +792,8 @@ pub fn critical_positions(args: &Args) -> i32 {
     let mut realised = 0;
     let mut k = 0;
     for &p in positions.iter() {
-        for neighbour in [0i64, -1, 1] {
+        let near = args.num("near", 1) as i64;
+        for neighbour in std::iter::once(0i64).chain((1..=near).flat_map(|d| [-d, d])) {
             let p = (p as i64 + neighbour) as usize;
             for level in [9, 6] {
                 // text-like filler (a small vocabulary: plenty of ordinary matches, so that the estimator
